@@ -17,7 +17,7 @@
 // name, the hints of the case.
 //
 // script:
-//   case id=N chain=<path>:<resp>[:daemon],...  name=-|x<hex>  mode=dir|trail|defdir|cwd|file  size=S  var=V
+//   case id=N chain=<path>:<resp>[:daemon],...  name=-|x<hex, "@WORK@" = the scratch directory>  mode=dir|trail|defdir|cwd|file  size=S  var=V
 //        flags=-|direct|transport|ctl  usename=0|1
 //        path in transport relay control fallback local ; resp in correct truncated substituted extended empty
 //        error down nopayload shortstream
@@ -460,7 +460,8 @@ void do_case(const ev::Cmd& c) {
     const std::string flags = c.s("flags", "-");
     const bool usename = c.i("usename", 1) != 0;
     const bool has_name = c.s("name", "-") != "-";
-    const std::string name = has_name ? unhex(c.s("name").substr(1)) : std::string();
+    std::string name = has_name ? unhex(c.s("name").substr(1)) : std::string();
+    for (size_t at; (at = name.find("@WORK@")) != std::string::npos;) name.replace(at, 6, W.work);    // absolute names stay inside the scanned tree
 
     const Bytes P = payload_of(id, size);
     const auto H = sha(P);
@@ -621,6 +622,8 @@ void do_case(const ev::Cmd& c) {
         .i("size", size).s("want", hex(H)).raw("chain", ev::jlist(hops)).i("rc", rr.rc).b("timeout", rr.timeout).b("signaled", rr.signaled)
         .s("err", errcode).raw("files", ev::jlist(fl)).raw("dirs", ev::jlist(dl)).s("bind", W.exe.empty() ? "inproc" : "binary").i("ms", run_ms).s("out", tail).emit();
     std::fflush(ev::out());
+    for (const auto& f : files) fs::remove((target / f.rel).lexically_normal(), ec);                 // strays outside the case directory, too
+    for (auto it = dirs.rbegin(); it != dirs.rend(); ++it) fs::remove((target / *it).lexically_normal(), ec);
     fs::remove_all(root, ec);
     drop_daemons();
 }
